@@ -13,7 +13,7 @@ fn main() {
         level: Level::Exploration,
         quick_runs: 150_000,
         thorough_runs: 5_000_000,
-        quick_wall_s: 90.0,
+        quick_wall_s: 75.0,
         thorough_wall_s: 900.0,
         event_cap: 20_000,
         enumerate: None,
